@@ -131,7 +131,8 @@ NAMESPACES = {'Lemmas.MiniPyFuel': 'Bridge.Py',
               'Translated.ThreadsMainA': 'Bridge.Translated.MainA', 'Translated.ThreadsMainB': 'Bridge.Translated.MainB',
               'Translated.ThreadsSeatB': 'Bridge.Translated.SeatB', 'Translated.ThreadsClientA': 'Bridge.Translated.ClientA',
               'Translated.ThreadsSeatC': 'Bridge.Translated.SeatC', 'Translated.ThreadsClientB': 'Bridge.Translated.ClientB',
-              'Translated.ThreadsMainC': 'Bridge.Translated.MainC'}
+              'Translated.ThreadsMainC': 'Bridge.Translated.MainC',
+              'Translated.ThreadsSeatD': 'Bridge.Translated.SeatD', 'Translated.ThreadsClientC': 'Bridge.Translated.ClientC'}
 
 
 def prop_module(prop):
